@@ -12,9 +12,10 @@
 //	close(ch)                          -> rt.Close(ch)
 //	select { ... }                     -> rt.NewSelect / SelRecv / SelSend / switch Wait()
 //	for k, v := range <map>            -> for k, v := range rt.RangeMap(<map>)
+//	for v := range <chan>              -> for v := range rt.RangeChan(<chan>)
 //	time.Sleep(d)                      -> rt.Sleep(d)
 //
-// Anything it cannot translate (range over a channel, labelled select, reflect.Select, sync.Cond, len(ch)) is an
+// Anything it cannot translate (labelled select, reflect.Select, sync.Cond, len(ch)) is an
 // error: the caller reports ENGINE-ERROR, never a violation.
 package main
 
@@ -198,6 +199,7 @@ func (r *rewriter) rewrite() (bool, error) {
 	r.skip = map[ast.Node]bool{}
 	// pass 1: decisions that need type information, taken on the unmodified tree
 	mapRange := map[*ast.RangeStmt]bool{}
+	chanRange := map[*ast.RangeStmt]bool{}
 	closeCall := map[*ast.CallExpr]bool{}
 	sleepCall := map[*ast.CallExpr]bool{}
 	shuffleCall := map[*ast.CallExpr]bool{}
@@ -209,7 +211,7 @@ func (r *rewriter) rewrite() (bool, error) {
 				case *types.Map:
 					mapRange[x] = true
 				case *types.Chan:
-					r.fail(x, "range over a channel is not supported by the instrumenter")
+					chanRange[x] = true
 				}
 			}
 		case *ast.CallExpr:
@@ -314,6 +316,11 @@ func (r *rewriter) rewrite() (bool, error) {
 		case *ast.RangeStmt:
 			if mapRange[x] {
 				x.X = callRT("RangeMap", x.X)
+				r.needRT, r.changed = true, true
+			}
+			if chanRange[x] {
+				// for v := range ch  ->  for v := range rt.RangeChan(ch)  (receives through the scheduler until closed)
+				x.X = callRT("RangeChan", x.X)
 				r.needRT, r.changed = true, true
 			}
 		case *ast.SelectStmt:
